@@ -25,7 +25,7 @@ mkdir -p "$(dirname "$dest")"; cp "$D/demo.rs" "$dest"
 r1=FAIL; r3=FAIL; r4=FAIL
 if $cmd >/tmp/seed/confirm.log 2>&1; then r1=pass; fi
 if git apply "$D/patch.diff"; then
-  if $cmd >/tmp/seed/confirm.log 2>&1; then r3="UNEXPECTED-pass"; else if grep -q "test result: FAILED\|panicked" /tmp/seed/confirm.log; then r3=fails; else r3="build-error?"; fi; fi
+  if $cmd >/tmp/seed/confirm.log 2>&1; then r3="UNEXPECTED-pass"; else if grep -q "test result: FAILED\|panicked" /tmp/seed/confirm.log; then r3=fails; elif grep -q "stack overflow\|SIGABRT\|SIGSEGV\|signal: " /tmp/seed/confirm.log; then r3="fails(process-killed)"; else r3="build-error?"; fi; fi
   rm -f "$dest"
   if cargo test $crates --offline >/tmp/seed/confirm.log 2>&1; then r4=pass; else r4=FAIL; fi
 else r3="patch-does-not-apply"; fi
